@@ -147,6 +147,18 @@ func runRelC03(m *Model, c relC03) []Diff {
 		return strings.Join(out, ",")
 	}
 	diffs = append(diffs, cmp("mkdir: From-Root vs From-Markdown", rel(j1, snapshot(j1))+" e="+classify(m1), rel(j2, snapshot(j2))+" e="+classify(m2))...)
+	// a context that is already cancelled: both names of the From-Root entry point and the From-Markdown
+	// counterpart report it alike (text output, massive option)
+	{
+		cctx, cancel := context.WithCancel(context.Background())
+		cancel()
+		var c1, c2, c3 bytes.Buffer
+		ce1 := gtree.OutputFromRoot(&c1, root, append(fo, gtree.WithMassive(cctx))...)
+		ce2 := gtree.OutputProgrammably(&c2, root, append(fo, gtree.WithMassive(cctx))...)
+		ce3 := gtree.OutputFromMarkdown(&c3, bytes.NewReader(doc), append(fo, gtree.WithMassive(cctx))...)
+		diffs = append(diffs, cmp("text+massive(cancelled ctx): OutputFromRoot vs OutputProgrammably (error class)", errClass(classify(ce1)), errClass(classify(ce2)))...)
+		diffs = append(diffs, cmp("text+massive(cancelled ctx): From-Root vs From-Markdown (error class)", errClass(classify(ce1)), errClass(classify(ce3)))...)
+	}
 	// the same with the massive option (accepted by both API families): same verdict about the names
 	j3, j4 := newJail(), newJail()
 	defer os.RemoveAll(j3)
@@ -203,6 +215,8 @@ func runC03(ctx *Ctx) *Report {
 				cases = append(cases, c)
 				c.Massive = true
 				cases = append(cases, c)
+				c.Massive, c.Busy = false, true
+				cases = append(cases, c)
 				c = newCase("rootf")
 				c.Tree, c.Format, c.Alias = enc, []string{"json", "yaml", "toml"}[i%3], alias
 				cases = append(cases, c)
@@ -241,8 +255,16 @@ func runC03(ctx *Ctx) *Report {
 	}
 	// wide parents: many distinct children under one node, then Adds of names that exist already (early,
 	// middle, late ones) with a grandchild hung under what Add returned
-	for wi, width := range []int{8, 15, 16, 17, 18, 24, 33, 64, 130} {
+	var widths []int
+	for w := 1; w <= 70; w++ {
+		widths = append(widths, w)
+	}
+	widths = append(widths, 127, 128, 129, 130, 255, 256, 257)
+	for wi, width := range widths {
 		for _, again := range []int{0, width / 2, width - 2, width - 1} {
+			if again < 0 || (width > 70 && again != width-1 && again != 0) || (width <= 70 && wi%3 != 0 && again != width-1) {
+				continue
+			}
 			c := relC03{Kind: "c03-rel", Root: "root", Fmt: formats[wi%len(formats)], Sp: spellings[(wi+again)%len(spellings)]}
 			par := 0
 			if wi%2 == 1 {
